@@ -33,6 +33,13 @@ def run(ctx, ss):
     ctx.guard("C05.4", lambda c, s: _as(c, s, c01_5, "C05.4"), ss)
     from .c06 import c06_5
     ctx.guard("C05.5", lambda c, s: _as(c, s, c06_5, "C05.5"), ss)
+    # the Define table that parse() substitutes from is this parser's own, freshly read from its parsed tree (shared clause of C07.8)
+    from .c07 import c07_8
+    from .c09 import no_state_effects
+    ctx.guard("C05.6", c07_8, ss, "C05.6", ("dict_definitions",))
+    for q_ in ("DecFileParser.dict_definitions", "DecFileParser._dict_raw_model_aliases"):
+        ff_, _fl = fn(ss, DEC, q_)
+        ctx.guard("C05.6", no_state_effects, ss, "C05.6", ff_, True)
 
 
 def _as(ctx, ss, f, rule):
